@@ -53,15 +53,17 @@ def download_license(spdx_identifier: str) -> str:
 
 def _path_to_license_file(spdx_identifier: str, project: Project) -> Path:
     root: Optional[Path] = project.root
-    # Hack
+    # Hack: without VCS, a root called LICENSES is the LICENSES directory of a
+    # project that could not be detected. Use that directory itself, wherever
+    # the command was started from.
     if (
         root
         and root.name == "LICENSES"
         and isinstance(project.vcs_strategy, VCSStrategyNone)
     ):
-        root = None
-
-    licenses_path = find_licenses_directory(root=root)
+        licenses_path = root
+    else:
+        licenses_path = find_licenses_directory(root=root)
     return licenses_path / "".join((spdx_identifier, ".txt"))
 
 
